@@ -170,6 +170,12 @@ pub(super) fn chain_animations<K: AnimationKey, T: Component>(
         if animator.state != AnimationState::Ended {
             continue;
         }
+        // The animation that ended is the one for the key the selector last acted on. If the key has
+        // been changed since (e.g. by the user, right after the end), that change takes precedence;
+        // the chain entry of the *new* key must not fire for an animation that never played.
+        if selector.previous_key.as_ref() != Some(&selector.timeline_key) {
+            continue;
+        }
         if let Some(next_key) = chain.next_keys.get(&selector.timeline_key) {
             selector.timeline_key = next_key.clone();
         }
